@@ -285,6 +285,7 @@ pub struct Found {
 pub struct RunStats {
     pub faults_fired: BTreeMap<String, u64>,
     pub max_passes: u64,
+    pub max_work: u64,
     pub invocations: u64,
     pub diagnostics: u64,
     pub produced_output: bool,
@@ -369,6 +370,13 @@ fn panic_found(pipeline: &str, stage: &str) -> Found {
             ),
         };
     }
+    if let Some(b) = p.iter().find(|p| p.message.contains(passwatch::WORK_BUDGET_MARKER)) {
+        return Found {
+            class: "nonterminating_expansion".into(),
+            sig: "nonterminating:expansion".into(),
+            message: format!("pipeline {} does not terminate in any useful sense: {} (decided on the logical clock of emitted tokens)", pipeline, b.message),
+        };
+    }
     let last = p.last();
     let loc = last.map(|p| short_loc(&p.location)).unwrap_or_else(|| "<unknown>".into());
     Found {
@@ -439,6 +447,7 @@ pub fn execute(c: &Case, stats: &mut RunStats) -> Option<Found> {
     let found = execute_inner(c, &paths, stats);
     let ps = passwatch::uninstall();
     stats.max_passes = ps.max_passes as u64;
+    stats.max_work = ps.max_work;
     stats.invocations = ps.invocations;
     let d = disk::uninstall().unwrap();
     for (k, v) in &d.fired {
@@ -745,7 +754,7 @@ fn minimise(cli: &Cli, c: &Case, found: &Found) -> (Case, Found) {
 
 fn stats_json(agg: &Agg) -> Value {
     json!({
-        "runs": agg.runs, "faults_fired": agg.faults_fired, "max_passes": agg.max_passes, "invocations": agg.invocations,
+        "runs": agg.runs, "faults_fired": agg.faults_fired, "max_passes": agg.max_passes, "max_work": agg.max_work, "invocations": agg.invocations,
         "diagnostics": agg.diagnostics, "labels_checked": agg.labels_checked, "pipelines": agg.pipelines, "results": agg.results,
         "runs_with_fault_fired": agg.runs_with_fault, "reads": agg.reads, "max_reads": agg.max_reads, "pass_histogram": agg.pass_hist,
     })
@@ -756,6 +765,7 @@ struct Agg {
     runs: u64,
     faults_fired: BTreeMap<String, u64>,
     max_passes: u64,
+    max_work: u64,
     invocations: u64,
     diagnostics: u64,
     labels_checked: u64,
@@ -777,6 +787,7 @@ impl Agg {
             self.runs_with_fault += 1;
         }
         self.max_passes = self.max_passes.max(st.max_passes);
+        self.max_work = self.max_work.max(st.max_work);
         self.invocations += st.invocations;
         self.diagnostics += st.diagnostics;
         self.labels_checked += st.labels_checked;
@@ -920,11 +931,13 @@ pub fn main(cli: &Cli) -> i32 {
     let mut pass_hist = BTreeMap::new();
     let mut max_passes = 0u64;
     let mut max_reads = 0u64;
+    let mut max_work = 0u64;
     for s in &sup.stats {
         for key in ["runs", "invocations", "diagnostics", "labels_checked", "runs_with_fault_fired", "reads"] {
             *tot.entry(key.to_string()).or_insert(0) += s.get(key).and_then(|x| x.as_u64()).unwrap_or(0);
         }
         max_passes = max_passes.max(s.get("max_passes").and_then(|x| x.as_u64()).unwrap_or(0));
+        max_work = max_work.max(s.get("max_work").and_then(|x| x.as_u64()).unwrap_or(0));
         max_reads = max_reads.max(s.get("max_reads").and_then(|x| x.as_u64()).unwrap_or(0));
         add_u64(&mut faults, s.get("faults_fired"));
         add_u64(&mut pipelines, s.get("pipelines"));
@@ -1001,6 +1014,8 @@ pub fn main(cli: &Cli) -> i32 {
         ev.set(k, json!(v));
     }
     ev.set("max_passes_of_any_run", json!(max_passes));
+    ev.set("max_tokens_emitted_in_one_pass", json!(max_work));
+    ev.set("token_emission_budget_per_pass", json!(passwatch::WORK_BUDGET));
     ev.set("max_file_reads_of_any_run", json!(max_reads));
     ev.set("file_read_budget", json!(READ_BUDGET));
     ev.set("pass_count_histogram", json!(pass_hist));
